@@ -12,7 +12,7 @@ DZ = "compression::dict_zip::blob_store::DictZipBlobStore::"
 
 def run(ctx):
     fx = ctx.facts("default")
-    fixtures.run(ctx, ['pair', 'batch', 'delegate', 'serde', 'record', 'capsrc', 'pairaccess'])
+    fixtures.run(ctx, ['pair', 'batch', 'delegate', 'serde', 'record', 'capsrc', 'pairaccess', 'flow'])
     # batch operations do to the store's state what the single-item operations do
     bfiles = sorted({fx.raw(f)['file'] for f in fx.fn_ids() if fx.raw(f)['file'].startswith('src/blob_store/') or fx.raw(f)['file'] == 'src/compression/dict_zip/blob_store.rs'})
     sibling.batch_effects(ctx, fx, bfiles)
@@ -89,7 +89,7 @@ def run(ctx):
             ctx.violation("R-FLOW", sv, "field %s never written" % fld.rsplit("::", 1)[-1],
                           "save_to_writer writes no bytes derived from the content of %s (only its size): a saved store "
                           "cannot answer get after load" % fld, sf.file, sf.line)
-        ok = flow.source_reaches_field(lf, r"Read::read_exact$|Read>::read_exact$|::read_exact$|Read::read_to_end$", fld)
+        ok = flow.source_reaches_field(lf, r"Read::read_exact$|Read>::read_exact$|::read_exact$|Read::read_to_end$", fld, fx=fx)
         ctx.obligation("R-FLOW", ld, "restores " + fld.rsplit("::", 1)[-1], ok,
                        sample={"fn": ld, "field": fld, "read_bytes_reach_field": ok})
         if not ok:
